@@ -480,9 +480,14 @@ def p1b_fixup_keeps_flags(ctx: Ctx):
 def _find_round_call(fn):
     """The statement-level call `<v>.round(...)` on a RealFloat inside a context's _round_at."""
     out = []
+    # not the context's rounding: a deterministic toward-zero rounding made only to ask `_is_overflowing` where the lower
+    # neighbour of the operand lies (no draw, nothing of it is returned)
+    probes = {id(k.args[0]) for k in walk_no_nested(fn) if isinstance(k, ast.Call) and call_name(k) == 'self._is_overflowing' and k.args
+              and isinstance(k.args[0], ast.Call) and norm(kwarg(k.args[0], 'rm') or (k.args[0].args[2] if len(k.args[0].args) > 2 else '')) == 'RoundingMode.RTZ'
+              and kwarg(k.args[0], 'num_randbits') is None and len(k.args[0].args) <= 3}
     for n in walk_no_nested(fn):
         if isinstance(n, ast.Call) and isinstance(n.func, ast.Attribute) and n.func.attr == 'round' \
-                and isinstance(n.func.value, ast.Name):
+                and isinstance(n.func.value, ast.Name) and id(n) not in probes:
             out.append(n)
     return out
 
